@@ -51,7 +51,8 @@ def depth_variable(name: str, dim: str, nk: int = NK, positive: str | None = 'do
 
 def label_values(base: int, extra_shape: tuple, ncell: int, shift: int = 0) -> np.ndarray:
     extra_n = int(np.prod(extra_shape)) if extra_shape else 1
-    values = base + shift + 100 * np.arange(extra_n)[:, None] + np.arange(ncell)[None, :]
+    stride = 100 if ncell <= 100 else 1000
+    values = base + shift + stride * np.arange(extra_n)[:, None] + np.arange(ncell)[None, :]
     return values.reshape(tuple(extra_shape) + (ncell,))
 
 
@@ -85,11 +86,6 @@ def var_truth(name, kind, base, dims, sizes, grid_dims, dtype='float64') -> dict
         'name': name, 'kind': kind, 'base': base, 'dims': tuple(dims),
         'extras': extras, 'extra_shape': tuple(sizes[d] for d in extras), 'dtype': dtype,
     }
-
-
-def expected_label(vt: dict, extra_index: tuple, cell: int, shift: int = 0) -> int:
-    flat = int(np.ravel_multi_index(extra_index, vt['extra_shape'])) if vt['extras'] else 0
-    return vt['base'] + shift + 100 * flat + cell
 
 
 def standard_variables(kinds: dict, time_dim: str, depth_dim: str, sizes: dict, default_kind: str,
@@ -212,8 +208,8 @@ def build_cf1d(spec: dict) -> tuple[xr.Dataset, Truth]:
     else:
         lat_name, lon_name, y_dim, x_dim = 'latitude', 'longitude', 'y', 'x'
 
-    lat_values = axis_values(ny, lat_kind, -2.0)
-    lon_values = axis_values(nx, lon_kind, 10.0)
+    lat_values = axis_values(ny, lat_kind, spec.get('lat0', -2.0))
+    lon_values = axis_values(nx, lon_kind, spec.get('lon0', 10.0))
     lat = xr.DataArray(lat_values, dims=[y_dim], name=lat_name, attrs={
         'standard_name': 'latitude', 'units': 'degrees_north', 'long_name': 'Latitude'})
     lon = xr.DataArray(lon_values, dims=[x_dim], name=lon_name, attrs={
@@ -285,19 +281,19 @@ HOLE_SETS = {
 }
 
 
-def node_lattice(nj: int, ni: int, geometry: str) -> tuple[np.ndarray, np.ndarray]:
+def node_lattice(nj: int, ni: int, geometry: str, lon0: float = 10.0, lat0: float = -2.0) -> tuple[np.ndarray, np.ndarray]:
     """Node coordinates of an (nj+1, ni+1) lattice: X[j, i], Y[j, i]."""
     jj, ii = np.meshgrid(np.arange(nj + 1), np.arange(ni + 1), indexing='ij')
     if geometry == 'rect':
-        x = 10.0 + 0.5 * ii
-        y = -2.0 + 0.5 * jj
+        x = lon0 + 0.5 * ii
+        y = lat0 + 0.5 * jj
     elif geometry == 'skew':
-        x = 10.0 + 0.5 * ii + 0.25 * jj
-        y = -2.0 + 0.5 * jj + 0.125 * ii
+        x = lon0 + 0.5 * ii + 0.25 * jj
+        y = lat0 + 0.5 * jj + 0.125 * ii
     elif geometry == 'rot':
         # rows run north-to-south: a grid whose j axis points down
-        x = 10.0 + 0.5 * ii
-        y = 2.0 - 0.5 * jj
+        x = lon0 + 0.5 * ii
+        y = lat0 + 4.0 - 0.5 * jj
     else:
         raise ValueError(geometry)
     return x.astype('float64'), y.astype('float64')
@@ -361,7 +357,7 @@ def build_cf2d(spec: dict) -> tuple[xr.Dataset, Truth]:
         y_dim, x_dim, time_dim, depth_dim = 'y', 'x', 'time', 'depth'
         lat_name, lon_name, depth_name = 'lat', 'lon', 'depth'
 
-    x, y = node_lattice(ny, nx, geometry)
+    x, y = node_lattice(ny, nx, geometry, spec.get('lon0', 10.0), spec.get('lat0', -2.0))
     cx = (x[:-1, :-1] + x[:-1, 1:] + x[1:, 1:] + x[1:, :-1]) / 4
     cy = (y[:-1, :-1] + y[:-1, 1:] + y[1:, 1:] + y[1:, :-1]) / 4
     cx_h, cy_h = cx.copy(), cy.copy()
@@ -419,6 +415,19 @@ def build_cf2d(spec: dict) -> tuple[xr.Dataset, Truth]:
             centres.append(None if (j, i) in holes else (float(cx[j, i]), float(cy[j, i])))
     hole_points = [(float(cx[j, i]), float(cy[j, i])) for (j, i) in sorted(holes)]
 
+    for (dj, di) in (spec.get('darts') or []) if bounds == 'stored' else []:
+        # a concave ("dart") cell: the third listed corner is pulled inside, past the diagonal
+        if (dj, di) in holes:
+            continue
+        corners = cell_corners(x, y, dj, di)
+        (x0, y0), (x2, y2) = corners[0], corners[2]
+        corners[2] = (x0 + 0.25 * (x2 - x0), y0 + 0.25 * (y2 - y0))
+        polygons[dj * nx + di] = corners
+        for name, column in (('lon_bnds', 0), ('lat_bnds', 1)):
+            values = ds[name].values.copy()
+            values[dj, di] = [c[column] for c in corners]
+            ds[name] = (ds[name].dims, values, ds[name].attrs)
+
     bowtie = spec.get('bowtie')
     if bowtie is not None and bounds == 'stored':
         # one cell lists its corners in a self-intersecting order
@@ -466,7 +475,7 @@ def build_shoc_standard(spec: dict) -> tuple[xr.Dataset, Truth]:
     nt, nk = spec.get('nt', NT), spec.get('nk', NK)
     dry = DRY_SETS[dry_name](nj, ni)
 
-    x, y = node_lattice(nj, ni, geometry)
+    x, y = node_lattice(nj, ni, geometry, spec.get('lon0', 10.0), spec.get('lat0', -2.0))
     # nodes are missing where every surrounding cell is dry
     node_missing = np.zeros((nj + 1, ni + 1), dtype=bool)
     for J in range(nj + 1):
@@ -682,6 +691,8 @@ def build_ugrid(spec: dict) -> tuple[xr.Dataset, Truth]:
         nodes, faces = [tuple(p) for p in spec['nodes']], [list(f) for f in spec['faces']]
     else:
         nodes, faces = mesh_library(mesh)
+    if 'lon0' in spec or 'lat0' in spec:
+        nodes = [(x + spec.get('lon0', 0.0), y + spec.get('lat0', 0.0)) for x, y in nodes]
     bowtie = spec.get('bowtie')
     stored_faces = [list(f) for f in faces]
     if bowtie is not None:
@@ -802,7 +813,24 @@ BUILDERS = {
 
 
 def build(spec: dict) -> tuple[xr.Dataset, Truth]:
-    return BUILDERS[spec['family']](spec)
+    ds, truth = BUILDERS[spec['family']](spec)
+    if spec.get('declare_reversed'):
+        # Declare the dimensions of every grid in the opposite order to the convention's: a first
+        # variable carries them reversed, so dataset.sizes / dataset.dims list e.g. x before y.
+        # The coordinate variables (and therefore the convention's own order) are untouched.
+        probes = {}
+        for kind, info in truth.kinds.items():
+            dims = tuple(info['dims'])
+            if len(dims) == 2 and all(d in ds.sizes for d in dims):
+                probes[f'declared_{kind}'] = xr.DataArray(
+                    np.zeros(tuple(ds.sizes[d] for d in dims[::-1])), dims=dims[::-1], attrs={'long_name': 'declares dimension order'})
+        coords = list(ds.coords)
+        reordered = xr.Dataset({**probes, **{name: ds[name].variable for name in ds.variables}}, attrs=ds.attrs)
+        reordered = reordered.set_coords(coords)
+        for name in ds.variables:
+            reordered[name].encoding.update(ds[name].encoding)
+        ds = reordered
+    return ds, truth
 
 
 def native_index(truth: Truth, kind: str, multi_index: tuple):
@@ -871,9 +899,23 @@ def family_specs(tier: str, *, holes: bool = True, big: bool = True) -> list[dic
                                   'bounds': 'stored', 'holes': hole})
             for dry in (['corner'] if quick else ['corner', 'interior', 'row', 'farcorner']):
                 specs.append({'family': 'shoc_standard', 'nj': a, 'ni': b, 'geometry': 'rect', 'dry': dry})
+    for (a, b) in ([(2, 3), (3, 4)] if quick else [(2, 3), (3, 2), (3, 4), (4, 3), (1, 4)]):
+        specs.append({'family': 'cf1d', 'ny': a, 'nx': b, 'bounds': 'var', 'declare_reversed': True})
+        specs.append({'family': 'cf2d', 'ny': a, 'nx': b, 'geometry': 'skew', 'holes': 'first', 'declare_reversed': True})
+        specs.append({'family': 'shoc_standard', 'nj': a, 'ni': b, 'dry': 'farcorner', 'declare_reversed': True})
+    # longitudes across 180 (0..360 style), negative longitudes, high latitudes
+    specs.append({'family': 'cf1d', 'ny': 2, 'nx': 4, 'bounds': 'var', 'lon0': 179.0, 'lat0': 60.0})
+    specs.append({'family': 'cf2d', 'ny': 2, 'nx': 3, 'geometry': 'skew', 'lon0': 179.5, 'lat0': -70.0})
+    specs.append({'family': 'shoc_standard', 'nj': 2, 'ni': 3, 'lon0': -180.5, 'lat0': 10.0})
+    specs.append({'family': 'ugrid', 'mesh': 'M4', 'lon0': 179.0, 'lat0': -45.0})
+    if not quick:
+        specs.append({'family': 'cf1d', 'ny': 3, 'nx': 3, 'lon0': 358.5, 'lat0': -89.0, 'lon_kind': 'nonuni'})
+        specs.append({'family': 'shoc_simple', 'ny': 2, 'nx': 2, 'lon0': -0.5, 'lat0': -0.5})
     meshes = ['M1', 'M4', 'M6', 'M7'] if quick else ['M1', 'M2', 'M3', 'M4', 'M5', 'M6', 'M7', 'M8', 'M9']
     for mesh in meshes:
         specs.append({'family': 'ugrid', 'mesh': mesh})
+        if mesh in ('M6', 'M7', 'M3', 'M5'):
+            specs.append({'family': 'ugrid', 'mesh': mesh, 'supplied': ['face_face'], 'fill': 'fillattr'})
         specs.append({'family': 'ugrid', 'mesh': mesh, 'supplied': ['edge_node', 'face_edge'],
                       'start_index': 1, 'fill': 'fillattr', 'face_coords': True})
         if not quick:
